@@ -24,7 +24,7 @@ CHECKS = {
          "Producer scenarios with a chain of counting + header-appending (+ panicking) interceptors, all executions with <= B deviations; oracle: exactly one invocation per submitted message per interceptor in configuration order, none for internal markers, one application visible in the log.",
          PNOTE + " Consumer half (slow-reader path) is added with the consumer rig.", "§6 C18"),
  "C17": (EX, "bounded-exhaustive enumeration of (constructor/options, injected hash value, partition count, key kind) through the real partitioners in attributed child processes, against an independent reference",
-         "All listed hash boundary values plus 2^16 (quick) / ~10^6 (thorough) structured hash values x partition counts 1..17 and 2^31-1 x every constructor/option subset x key kinds, plus all round-robin count sequences up to length 6/8; range, Java-reference equality, consistency, fallback routing, manual, cycle oracles. The producer-routing half (leaderless subsets) is explored on the producer rig.",
+         "All listed hash boundary values plus 2^16 (quick) / ~10^6 (thorough) structured hash values x partition counts 1..17 and 2^31-1 x every constructor/option subset x key kinds, plus all round-robin count sequences up to length 6/8; range, Java-reference equality, consistency, fallback routing, manual, cycle oracles. Producer-routing half: every partitioner x key pattern x every leaderless subset of a 3-partition topic through the real client + producer in synctest bubbles (default schedule; all 1-deviation schedules in thorough), judged against the recorded choices of the wrapped partitioner (offered set = all partitions for keyed consistency-requiring messages, writable ones otherwise; illegal choice or no partition => error and nothing on the wire).",
          "'all keys' is reduced to hash values through WithCustomHashFunction and short real keys; math/rand trusted; white-box bridge setters for cursors/fallbacks.", "§6 C17"),
  "C19": (FE, "exhaustive enumeration of controller-answer scripts and leader/coordinator spreads, each executed through the real ClusterAdmin inside a synctest bubble against a scripted cluster, judged by a reference model",
          "Every answer script of length <= Retry.Max+2 over {ok, NOT_CONTROLLER with/without move, other error, incomplete response, connection drop} for Retry.Max in {0,1,2} (5: restricted quick, full thorough) x 4 controller-bound ops x 5 Kafka versions; every spread of 1-3 items over 1-3 brokers with single faults for the leader/coordinator-bound ops; every KError in place of success.",
